@@ -27,7 +27,7 @@ type wit struct {
 }
 
 // results of earlier calls: the slice as returned, and a copy of what it held then
-var kept [][2][]byte
+var kept, emitted [][2][]byte
 
 func check(c *mon.Ctx, s []byte, class string) {
 	snap := append([]byte{}, s...)
@@ -228,6 +228,20 @@ func run(c *mon.Ctx) {
 		if len(sec) < 4 || ref.CRC32MPEG2(sec) != 0 {
 			c.Fail("crc:emitted-scte35", "the CRC-32/MPEG-2 of a section emitted by UpdateData is not zero", wit{Input: mon.Hex(sec)})
 		}
+		// the sections emitted for earlier messages are still valid sections after this message was encoded
+		for _, e := range emitted {
+			if len(e[0]) < 4 || ref.CRC32MPEG2(e[0]) != 0 || !bytes.Equal(e[0], e[1]) {
+				c.Fail("crc:earlier-emitted-section-changed", "the slice UpdateData returned for an earlier message no longer holds that section (its CRC-32/MPEG-2 is no longer zero) after another message was encoded", wit{Input: mon.Hex(e[0]), Want: mon.Hex(e[1])})
+				emitted = nil
+				break
+			}
+		}
+		if len(emitted) >= 4 {
+			emitted = emitted[1:]
+		}
+		// (what is kept is the last slice this object hands out: an object may re-use its own buffer when it is encoded again)
+		lastSec := sec
+		defer func() { emitted = append(emitted, [2][]byte{lastSec, append([]byte{}, lastSec...)}) }()
 		c.Class(fmt.Sprintf("emitted-scte35/cmd=%d/descs=%d/stuffing=%v/over1023=%v", s.Command(), len(ds), stuff > 0, len(sec) > 1026))
 		// encode again after a change made through a command / descriptor handle that keeps every length
 		first := append([]byte{}, sec...)
@@ -264,6 +278,7 @@ func run(c *mon.Ctx) {
 		}
 		if edits != "" {
 			sec2 := s.UpdateData()
+			lastSec = sec2
 			c.Eval(1)
 			c.Count("emitted_scte35.second_encoding_after_handle_edit")
 			if len(sec2) < 4 || ref.CRC32MPEG2(sec2) != 0 {
